@@ -174,6 +174,16 @@ def register5(E):
     @R(r' as (std::io::)?Read>::read_to_end$')
     def _(e, c, a):
         r = reader_of(a[0]); s = r.get(); v = deref(a[1]); v.l.extend(s.items()); r.set(SliceRef(s.l, s.hi, s.hi)); return OK(len(s))
+    @R(r'^(futures::future::)?(try_join_all|join_all)::<')
+    def _(e, c, a):
+        futs = E.drain_iter(E.it_of(a[0])); out = []
+        for f in futs:
+            r = e.poll(f)
+            if 'try_join_all' in c:
+                if r.v == 'Err': return StubFuture(r)
+                out.append(r.f[0])
+            else: out.append(r)
+        return StubFuture(OK(Vec(out)) if 'try_join_all' in c else Vec(out))
     @R(r'^(std::sync::|alloc::sync::|std::rc::)?(Arc|Rc)::<.*>::new$')
     def _(e, c, a): return Ref([a[0]], 0)
     @R(r'^<(std::sync::|alloc::sync::|std::rc::)?(Arc|Rc)<.*> as (Deref|AsRef<.*>|Borrow<.*>)>::(deref|as_ref|borrow)$')
